@@ -17,7 +17,7 @@ RULE = ("(a) pool of 10 classes chosen to collide (6/10/12/16-byte CDBs, inherit
         "caller objects, del; BFS with de-duplication on a digest of class-level state + live objects, all pairs to depth 4 (thorough 5) and all "
         "triples to depth 3 (thorough 4); in every state every live object and every class's codec is compared with what the same call yields "
         "alone; decode histories A,B,A over every ordered pair of 20 response kinds in a fresh process (result for A identical before and after B). (b) 2 threads (thorough: also 3), each 'c=X(..); bytes(c.cdb); X.unmarshall_cdb; X.marshall_cdb; len(c.datain)', every ordered "
-        "pair of pool classes, plus decoder threads (standard INQUIRY, VPD 83h, MODE SENSE(10), REPORT LUNS, RTPG, READ FULL STATUS, READ ELEMENT STATUS, sense) in all ordered pairs, all schedules with at most 1 preemption at every traced source line of the library (thorough: 2 preemptions at "
+        "pair of pool classes, plus decoder threads (standard INQUIRY, VPD 83h, MODE SENSE(10), REPORT LUNS, RTPG, READ FULL STATUS, READ ELEMENT STATUS, sense) in all ordered pairs, all schedules with at most 1 preemption at every traced source line of the library (thorough: also all schedules with at most 2 preemptions at function-entry granularity for the pairs over 5 classes of different CDB lengths, and 2 preemptions at "
         "call/line granularity outside converter.py); each schedule's per-thread observation must equal the solo observation; the first "
         "schedule of every pair is replayed twice and must be bit-identical. states = distinct canonical states (a), transitions = operations "
         "applied (a) + schedules executed (b).")
@@ -375,6 +375,11 @@ def coarse(filename, lineno, event):
     return not filename.endswith("converter.py")
 
 
+def calls_only(filename, lineno, event):
+    """scheduling points at function entries inside the library only"""
+    return event == "call"
+
+
 def run_schedules(names, bound, gran, acc, tag, max_schedules=None):
     repo = os.environ.get("VF_REPO", "/repo")
     pre = os.path.join(repo, "pyscsi") + "/"
@@ -430,7 +435,7 @@ def run_case(case):
     _, names, choices, tag = case
     repo = os.environ.get("VF_REPO", "/repo")
     pre = os.path.join(repo, "pyscsi") + "/"
-    x = sched.Execution([thread_body(n, 0) for n in names], choices, pre, coarse if tag == "coarse" else None).run()
+    x = sched.Execution([thread_body(n, 0) for n in names], choices, pre, {"coarse": coarse, "calls": calls_only}.get(tag)).run()
     out = []
     for tid, n in enumerate(names):
         if x.errors[tid] is not None:
@@ -469,6 +474,10 @@ def run_partition(part, tier, seed):
     if part[0] == "sched":
         names = part[1]
         run_schedules(names, b["preemptions_line"], None, acc, "line")
+        # windows that need two preemptions (A interrupted, B interrupted, A resumes): all schedules with <= 2 preemptions at
+        # function-entry granularity
+        if b["preemptions_coarse"] and set(names) <= {"TestUnitReady", "Read10", "Read16", "Inquiry", "ExtendedCopy4"}:
+            run_schedules(names, 2, calls_only, acc, "calls", max_schedules=60000)
         if b["preemptions_coarse"]:
             run_schedules(names, b["preemptions_coarse"], coarse, acc, "coarse", max_schedules=40000)
         return acc
